@@ -33,6 +33,6 @@ def run(ctx):
     ctx.assume("std: u16's Display and FromStr are inverse; str::split(' ') yields the maximal space-free pieces in order")
     fenrules.writer_rule(ctx, facts, "F3")
     fenrules.reader_rule(ctx, facts, "F4")
-    fenrules.fields_rule(ctx, facts, "F1")
+    fenrules.fields_rule(ctx, facts, "F1", ctx.tier == "thorough")
     fenrules.wrapper_rule(ctx, facts, "F2")
     valuerules.char_tables_rule(ctx, facts, "F5")
